@@ -137,9 +137,11 @@ def corr_literals(ctx: Ctx):
 # ----------------------------------------------------------------------------- end-to-end oracle
 
 PLACEMENTS = ("top", "list", "dict", "tuple", "dc")
-SETUPS = ("black", "noblack", "fmtcmd", "stripcmd")
+SETUPS = ("black", "noblack", "fmtcmd", "stripcmd", "crlfcmd")
 # a format-command that does what many formatters / editors do to every line: strip trailing whitespace
 STRIP_CMD = "/venv/bin/python -c \"import sys; sys.stdout.write(chr(10).join(l.rstrip(chr(32) + chr(9)) for l in sys.stdin.read().split(chr(10))))\""
+# a test file with \\r\\n line endings and a format-command that writes \\r\\n line endings (ruff with line-ending = "cr-lf", unix2dos)
+CRLF_CMD = "/venv/bin/python -c \"import sys; d = sys.stdin.buffer.read().replace(bytes([13, 10]), bytes([10])).replace(bytes([10]), bytes([13, 10])); sys.stdout.buffer.write(d)\""
 HDR = "from inline_snapshot import snapshot\nfrom dataclasses import dataclass\n\n@dataclass\nclass DC:\n    a: object\n    b: object = 1\n\n"
 
 
@@ -177,6 +179,9 @@ def run_e2e(item):
         kw["format_command"] = "/venv/bin/python -m black -q -"
     elif setup == "stripcmd":
         kw["format_command"] = STRIP_CMD
+    elif setup == "crlfcmd":
+        kw["format_command"] = CRLF_CMD
+        src = src.replace("\n", "\r\n")
     res = driver.run_inproc({"test_a.py": src}, flags, **kw)
     out = {"session_exc": res["session_exc"], "module_exc": res["module_exc"], "tests": res["tests"], "bad": []}
     after = res["files"]["test_a.py"].decode("utf-8", "surrogateescape")
